@@ -16,7 +16,8 @@ func usage() {
 	fmt.Fprintln(os.Stderr, `usage:
   gowp verify [-repo /repo] [-classes a,b] [-dump dir] [-t secs] <func-substring>...   debug: verify matching functions
   gowp check  <property> <quick|thorough>                                        registered check (see check.go)
-  gowp baseline                                                                  regenerate claims/claimed.json`)
+  gowp baseline                                                                  regenerate claims/claimed.json
+  gowp gen [-repo /repo] [property...]                                           generate only: property, obligation id, SHA-256(query)`)
 	os.Exit(2)
 }
 
